@@ -538,6 +538,12 @@ def prop_C01(tier):
 # properties whose step obligations rest on INV: the native base case (parser results satisfy INV) is run with them
 INV_BASE_CASE = ("C07", "C19", "C03", "C09", "C05")
 
+# native base case "real parser under limits around the sizes involved" (not a solver result) accompanies these
+LIMIT_BASE_CASE = ("C09", "C08")
+# whole-parse differential over the corpora: which disagreement bits of vk_diff_parse count for which property
+DIFF_BASE_CASE = {"C04": 1 | 2 | 4 | 64, "C05": 16 | 32, "C17": 8}
+WPT_BASE_CASE = ("C01",)
+
 COMMON_ASSUMPTIONS = [
     "clang-14 -O1 IR of /repo's src/ada.cpp (single translation unit, -fno-exceptions, -fno-access-control) is the code under test; "
     "ll2c (own LLVM-IR -> C translator) and CBMC 6.11 are trusted, cross-checked by native replay of every counterexample "
